@@ -242,6 +242,25 @@ async fn run_history(max_sessions: usize, evs: &[Ev], settle: Duration, ev: &mut
     problems
 }
 
+fn accept_failure_leg(ev: &mut Evidence, args: &Args) {
+    let out = verif_root().join("out").join(format!("c15accept-{}.json", std::process::id()));
+    let _ = std::fs::create_dir_all(verif_root().join("out"));
+    let Ok(exe) = std::env::current_exe() else {
+        ev.inconclusive("c15accept: current_exe");
+        return;
+    };
+    let st = std::process::Command::new(exe)
+        .args(["c15accept", "--tier", args.tier.name(), "--seed", &(args.seed as i64).to_string(), "--out"])
+        .arg(&out)
+        .stdout(std::process::Stdio::null())
+        .status();
+    match (st, std::fs::read_to_string(&out).ok().and_then(|t| serde_json::from_str::<serde_json::Value>(&t).ok())) {
+        (Ok(s), Some(v)) if s.success() => ev.merge(Evidence::from_json(&v)),
+        _ => ev.inconclusive("the accept-failure part of the evidence was not delivered"),
+    }
+    let _ = std::fs::remove_file(&out);
+}
+
 pub fn run(args: &Args) -> i32 {
     let started = Instant::now();
     let seed = args.seed;
@@ -369,6 +388,9 @@ pub fn run(args: &Args) -> i32 {
             }
             n = hi;
         }
+        // connections the server cannot accept (descriptor exhaustion): in a process of its own
+        drop(rt);
+        accept_failure_leg(&mut ev, args);
     }
     let meta = Meta {
         property_id: "C15",
@@ -383,6 +405,7 @@ pub fn run(args: &Args) -> i32 {
             ("events".into(), args.tier.pick(3_000, 60_000)),
             ("evictions_observed".into(), args.tier.pick(150, 2_000)),
             ("sessions_closed_on_shutdown".into(), args.tier.pick(150, 2_000)),
+            ("accept_failure_scenarios".into(), args.tier.pick(4, 40)),
         ],
         min_classes: 10,
     };
